@@ -15,7 +15,7 @@ CLASS_NAMES = ["A", "B", "Shape", "my_class", "HTTPServer", "Data_Set", "Node", 
 PRIV_CLASS_NAMES = ["_Base", "_Mixin", "_Top", "_Impl"]
 PARAM_NAMES = ["x", "y", "value", "max_depth", "n_jobs", "alpha", "data_set", "flag", "name", "kw", "opt"]
 ATTR_NAMES = ["a", "b", "count", "my_attr", "value_2", "data"]
-MODULE_NAMES = ["mod_a", "mod_b", "core", "utils", "shapes"]
+MODULE_NAMES = ["mod_a", "mod_b", "core", "utils", "shapes", "io_mod", "models", "plots", "helpers", "base", "types_mod", "algo"]
 PRIV_MODULE_NAMES = ["_impl", "_private_mod"]
 
 
@@ -308,8 +308,8 @@ class ApiGen:
         subpkgs = ["pkg"] + [f"pkg/{n}" for n in r.sample(["sub", "_internal", "io_utils"], r.choice([0, 1, 2]))]
         if r.random() < 0.3 and len(subpkgs) > 1:
             subpkgs.append(subpkgs[1] + "/deep")
+        used = set()        # module names are unique in the package (same-named modules: known finding K18)
         for sp in subpkgs:
-            used = set()
             for _ in range(r.choice([1, 1, 2, 3])):
                 mn = self.uniq(MODULE_NAMES, used, PRIV_MODULE_NAMES, 0.3)
                 if (sp, mn) not in pk_used:
@@ -365,7 +365,10 @@ class ApiGen:
                         wis.append(A.WildcardImport(r.choice([tq, tm.name])))
                         self.feat("reexport_star")
                     elif k == 4:
-                        qis.append(A.QualifiedImport(r.choice([tq, tm.name]), r.choice([None, "mod_alias", "_m"])))
+                        # aliases are unique within one __init__ (two modules under one alias is out of scope)
+                        self._alias_n = getattr(self, "_alias_n", 0) + 1
+                        al = r.choice([None, f"mod_alias{self._alias_n}", f"_m{self._alias_n}"])
+                        qis.append(A.QualifiedImport(r.choice([tq, tm.name]), al))
                         self.feat("reexport_module")
                     else:
                         qis.append(A.QualifiedImport(r.choice(["os.path", "typing.Any", "numpy"]), None))
